@@ -94,7 +94,9 @@ def expected_for(template, block_index, row_index, ex_name, ex_tags, headings, c
         steps.append({"name": subst(st["name"], m), "text": subst(st["text"], m) if st["text"] is not None else None,
                       "headings": [subst(h, m) for h in st["headings"]] if st["headings"] is not None else None,
                       "rows": [[subst(c, m) for c in r] for r in st["rows"]] if st["rows"] is not None else None})
-    tags = [tagname(subst(t, m)) if ("<" in t and ">" in t) else t for t in template["tags"]] + list(ex_tags)
+    # (a tag whose placeholder names no column of this block is dropped)
+    tags = [tagname(subst(t, m)) if ("<" in t and ">" in t) else t for t in template["tags"]
+            if all(tok in m for tok in TOKEN.findall(t))] + list(ex_tags)
     return {"name": schema.format(name=subst(template["name"], m), examples=ex, row=row), "steps": steps, "tags": tags, "line": line}
 
 
@@ -108,6 +110,15 @@ def snapshot(outline):
 # the same outline with placeholders ONLY in the doc-string and the step table (all step names are plain text)
 TEXT_PLAIN_NAMES = TEXT.replace("Given step with <a>", "Given step with a table").replace("When doc <b>:", "When doc follows:") \
                        .replace("And total > <a> but -> <b> ok", "And total > a but -> b ok")
+
+
+# the second block has fewer columns than the first: <a> and <t> stay literal there (and the tag with <t> is dropped)
+TEXT_RAGGED = TEXT.replace("      | t | b | a |\n      | T3 | B3 | A3 |", "      | b |\n      | B3 |")
+assert TEXT_RAGGED != TEXT
+
+
+def _text(variant):
+    return {"plain-names": TEXT_PLAIN_NAMES, "ragged": TEXT_RAGGED}.get(variant, TEXT)
 
 
 def row_lines(text):
@@ -129,7 +140,7 @@ def row_lines(text):
 
 def _parse(variant=None):
     from behave.parser import parse_feature
-    f = parse_feature(TEXT_PLAIN_NAMES if variant == "plain-names" else TEXT, filename="o.feature")
+    f = parse_feature(_text(variant), filename="o.feature")
     return f, f.run_items[0]
 
 
@@ -170,7 +181,7 @@ def h_expand(sx):
                 "names": [repr(sx.eval(s.name, m) if isinstance(s.name, SymChoice) and m is not None else s.name) for s in scenarios]}
     known = [("C06-F10", hostile)]
     sx.check(len(scenarios) == len(exp), "C06.one-scenario-per-row", detail=det)
-    true_lines = row_lines(TEXT_PLAIN_NAMES if p.get("variant") == "plain-names" else TEXT)
+    true_lines = row_lines(_text(p.get("variant")))
     sx.check([sc.line for sc in scenarios] == true_lines, "C06.located-at-row-line",
              detail=lambda m: dict(det(m), scenario_lines=[sc.line for sc in scenarios], row_lines_in_text=true_lines))
     for i, (sc, e) in enumerate(zip(scenarios, exp)):
@@ -319,6 +330,8 @@ def jobs(tier, seed):
                           reach=["C06.name-substituted", "C06.step-name-substituted", "C06.doc-string-substituted", "C06.step-table-substituted",
                                  "C06.tags=outline+examples", "C06.located-at-row-line", "C06.template-unchanged"],
                           min_paths=1, cost=100, validate=40, closure=False))
+    js.append(Job("expand.ragged-columns", "props.c06:h_expand", {"block": 0, "row": 1, "schema": 0, "variant": "ragged"},
+                  reach=["C06.name-substituted", "C06.tags=outline+examples"], min_paths=10, cost=500, validate=30))
     js.append(Job("expand.plain-names", "props.c06:h_expand", {"block": 0, "row": 1, "schema": 0, "variant": "plain-names"},
                   reach=["C06.doc-string-substituted", "C06.step-table-substituted", "C06.template-unchanged"],
                   min_paths=1, cost=100, validate=40, closure=False))
